@@ -35,6 +35,24 @@
 (* AddrBytes = "minimal": net.IP(big.Int.Bytes()) (H-C14-1, leading zero    *)
 (*             bytes of the address are dropped)                            *)
 (* AddrBytes = "fill"   : address always has the family's byte width        *)
+(*                                                                         *)
+(* State derived from a configuration.  A configuration object (one         *)
+(* SubnetConfig: built at station start, replaced as a whole by a reload)   *)
+(* may keep state derived from its groups - e.g. their parsed form, index   *)
+(* for index - which every weighted selection on that object reads.  The    *)
+(* selection is a function of (configuration, seed, version), so the        *)
+(* derived table must be the identity on the groups whatever the schedule   *)
+(* of the FIRST uses of a fresh object:                                     *)
+(* derived[c] : sequence, position k holds the group whose blocks/flag a    *)
+(*              selection that chose group k gets (<<>> = not built yet)    *)
+(* DerivedMode = "once": the first use builds the whole table in one        *)
+(*              atomic step (per-call parsing, eager build and sync.Once    *)
+(*              are all this instance)                                      *)
+(* DerivedMode = "lazy-unsynchronised": `if table == nil { for each group:  *)
+(*              table = append(table, ...) }` without a lock - two first    *)
+(*              uses interleave, positions shift, group k resolves to       *)
+(*              another group for the rest of the object's life (a broken   *)
+(*              instance: must violate Pure)                                *)
 (***************************************************************************)
 EXTENDS Integers, Sequences, FiniteSets, TLC
 
@@ -46,6 +64,7 @@ CONSTANTS CfgNames,   \* configurations explored (subset of DOMAIN Configs)
           ProcSeedKs, \* "proc" mode: abstract seeds (naturals)
           RNG,        \* "local" | "global"
           AddrBytes,  \* "fill"  | "minimal"
+          DerivedMode,\* "once" | "lazy-unsynchronised": how the per-configuration derived table is built on first use
           NetBase     \* "masked": a block's network is the configured address with its host bits cleared, however the CIDR was
                       \*           written (10.0.0.5/29 is 10.0.0.0/29 - net.ParseCIDR);  "as-written": the configured address is
                       \*           taken as the base as it stands (a broken instance: must violate Contained)
@@ -56,10 +75,13 @@ VARIABLES inp,   \* [Procs -> input]    input = [c, lv, fam, gen, seed]
           rng,   \* the process-global generator [s |-> seed, p |-> position] (RNG = "global")
           lrng,  \* [Procs -> generator]                                     (RNG = "local")
           res,   \* [Procs -> result or None]
+          derived, \* [CfgNames -> table derived from the configuration object on first use] (<<>> = fresh object)
+          dpc,   \* [Procs -> {"idle","build","ready"}] where the selector stands with respect to the derived table
+          dk,    \* [Procs -> next group the selector appends while it builds the table (0 = not building)]
           obs    \* last completed selection
 
-vars == <<inp, pc, grp, rng, lrng, res, obs>>
-view == <<inp, pc, grp, rng, lrng, res>>
+vars == <<inp, pc, grp, rng, lrng, res, derived, dpc, dk, obs>>
+view == <<inp, pc, grp, rng, lrng, res, derived, dpc, dk>>
 
 None == [none |-> TRUE]
 Procs == 1..NSel
@@ -184,10 +206,10 @@ AddrHkdf(c, g, fam, id) ==
            ELSE LET k == CHOOSE k \in ks : \A k2 \in ks : k2 <= k      \* the loop keeps the last match
                 IN  Ok(c, g, F[k], id - lo(k))
 \* id = rand.Int(hkdf, total): always below the total of the chosen group
-SelHkdf(c, fam, w0, idr) ==
-  LET g == ChooseHkdf(c, w0)
-      t == GroupTotal(c, g, fam)
+SelHkdfG(c, fam, g, idr) ==
+  LET t == GroupTotal(c, g, fam)
   IN  AddrHkdf(c, g, fam, IF t = 0 THEN 0 ELSE idr % t)
+SelHkdf(c, fam, w0, idr) == SelHkdfG(c, fam, ChooseHkdf(c, w0), idr)
 
 \* v1 -------------------------------------------------------------------------------------------
 AddrV1(c, g, fam, idraw, h) ==
@@ -279,6 +301,9 @@ Init == /\ inp \in [Procs -> Inputs]
         /\ rng = NoRng
         /\ lrng = [i \in Procs |-> NoRng]
         /\ res = [i \in Procs |-> None]
+        /\ derived = [c \in CfgNames |-> <<>>]          \* every configuration object is fresh
+        /\ dpc = [i \in Procs |-> "idle"]
+        /\ dk = [i \in Procs |-> 0]
         /\ obs = [a |-> "Init"]
 
 Get(i) == IF RNG = "global" THEN rng ELSE lrng[i]
@@ -288,38 +313,70 @@ Finish(i, r) == /\ res' = [res EXCEPT ![i] = r]
                 /\ pc' = [pc EXCEPT ![i] = "done"]
                 /\ obs' = [a |-> "Select", i |-> i, inp |-> inp[i], res |-> r]
 
-\* unknown generation (any version) and the v2+ algorithm touch no shared state: one step
+\* ---- the table derived from a configuration object
+Identity(c) == [g \in 1..Len(Groups(c)) |-> g]
+\* the group whose blocks and flag a selection that chose group g gets (a position not built yet is parsed by the call itself)
+Via(c, g) == IF g \in 1..Len(derived[c]) THEN derived[c][g] ELSE g
+\* only a weighted selection on a known generation reads the table
+NeedsDerived(i) == inp[i].gen = "known" /\ ~NoWeight(inp[i].c)
+Ready(i) == NeedsDerived(i) => dpc[i] = "ready"
+
+\* first thing a selection does with the configuration object: `if table == nil`
+DeriveFirstUse(i) ==
+  /\ pc[i] = "start" /\ dpc[i] = "idle" /\ NeedsDerived(i)
+  /\ LET c == inp[i].c IN
+       IF derived[c] # <<>>
+       THEN dpc' = [dpc EXCEPT ![i] = "ready"] /\ UNCHANGED <<derived, dk>>
+       ELSE IF DerivedMode = "once"
+       THEN /\ derived' = [derived EXCEPT ![c] = Identity(c)]
+            /\ dpc' = [dpc EXCEPT ![i] = "ready"] /\ UNCHANGED dk
+       ELSE dpc' = [dpc EXCEPT ![i] = "build"] /\ dk' = [dk EXCEPT ![i] = 1] /\ UNCHANGED derived
+  /\ UNCHANGED <<inp, pc, grp, rng, lrng, res, obs>>
+
+\* "lazy-unsynchronised": one `table = append(table, parse(group k))` of the selector's build loop
+DeriveAppend(i) ==
+  /\ dpc[i] = "build"
+  /\ LET c == inp[i].c IN
+       /\ derived' = [derived EXCEPT ![c] = Append(@, dk[i])]
+       /\ IF dk[i] >= Len(Groups(c))
+          THEN dpc' = [dpc EXCEPT ![i] = "ready"] /\ dk' = [dk EXCEPT ![i] = 0]
+          ELSE dk' = [dk EXCEPT ![i] = @ + 1] /\ UNCHANGED dpc
+  /\ UNCHANGED <<inp, pc, grp, rng, lrng, res, obs>>
+
+\* unknown generation (any version) and the v2+ algorithm touch no shared state but the derived table: one step
 SelectPure(i) ==
-  /\ pc[i] = "start"
+  /\ pc[i] = "start" /\ Ready(i)
   /\ inp[i].gen # "known" \/ inp[i].lv >= 2 \/ NoWeight(inp[i].c)
-  /\ Finish(i, Serial(inp[i]))
-  /\ UNCHANGED <<inp, grp, rng, lrng>>
+  /\ Finish(i, IF NeedsDerived(i)
+               THEN SelHkdfG(inp[i].c, inp[i].fam, Via(inp[i].c, ChooseHkdf(inp[i].c, inp[i].seed.w % TotW(inp[i].c))), inp[i].seed.id)
+               ELSE Serial(inp[i]))
+  /\ UNCHANGED <<inp, grp, rng, lrng, derived, dpc, dk>>
 
 \* compat.go getSubnetsVarint: mrand.Seed(seedInt)
 Seed1(i) ==
-  /\ pc[i] = "start" /\ inp[i].gen = "known" /\ inp[i].lv < 2 /\ ~NoWeight(inp[i].c)
+  /\ pc[i] = "start" /\ inp[i].gen = "known" /\ inp[i].lv < 2 /\ ~NoWeight(inp[i].c) /\ Ready(i)
   /\ Put(i, FreshRng(inp[i].seed))
   /\ pc' = [pc EXCEPT ![i] = "seeded1"]
-  /\ UNCHANGED <<inp, grp, res, obs>>
+  /\ UNCHANGED <<inp, grp, res, obs, derived, dpc, dk>>
 
 \* compat.go getSubnetsVarint: c.Pick() = rand.Intn(max)+1; then filter + id range search
 Pick(i) ==
   /\ pc[i] = "seeded1"
   /\ LET r == Get(i)
-         g == ChooseLegacy(inp[i].c, ValW(r) % TotW(inp[i].c))
+         g == Via(inp[i].c, ChooseLegacy(inp[i].c, ValW(r) % TotW(inp[i].c)))    \* the chosen group's parsed form comes from the table
      IN  /\ Put(i, [r EXCEPT !.p = @ + 1])
          /\ grp' = [grp EXCEPT ![i] = g]
          /\ IF LegacyReachesRead(inp[i].c, inp[i].lv, g, inp[i].fam, inp[i].seed.id)
             THEN pc' = [pc EXCEPT ![i] = "picked"] /\ UNCHANGED <<res, obs>>
             ELSE Finish(i, AddrLegacy(inp[i].c, inp[i].lv, g, inp[i].fam, inp[i].seed.id, 0))
-  /\ UNCHANGED inp
+  /\ UNCHANGED <<inp, derived, dpc, dk>>
 
 \* compat.go SelectAddrFromSubnet: mrand.Seed(seedInt)
 Seed2(i) ==
   /\ pc[i] = "picked"
   /\ Put(i, FreshRng(inp[i].seed))
   /\ pc' = [pc EXCEPT ![i] = "seeded2"]
-  /\ UNCHANGED <<inp, grp, res, obs>>
+  /\ UNCHANGED <<inp, grp, res, obs, derived, dpc, dk>>
 
 \* compat.go SelectAddrFromSubnet: mrand.Read(randBytes); mask; add to the block's base
 Read(i) ==
@@ -327,9 +384,9 @@ Read(i) ==
   /\ LET r == Get(i) IN
        /\ Put(i, [r EXCEPT !.p = @ + 1])
        /\ Finish(i, AddrLegacy(inp[i].c, inp[i].lv, grp[i], inp[i].fam, inp[i].seed.id, ValH(r) % MaxSz(inp[i].c)))
-  /\ UNCHANGED <<inp, grp>>
+  /\ UNCHANGED <<inp, grp, derived, dpc, dk>>
 
-Next == \E i \in Procs : SelectPure(i) \/ Seed1(i) \/ Pick(i) \/ Seed2(i) \/ Read(i)
+Next == \E i \in Procs : DeriveFirstUse(i) \/ DeriveAppend(i) \/ SelectPure(i) \/ Seed1(i) \/ Pick(i) \/ Seed2(i) \/ Read(i)
 Spec == Init /\ [][Next]_vars
 
 \* ------------------------------------------------------------------ properties
@@ -337,6 +394,11 @@ Done(i) == pc[i] = "done"
 
 TypeOK == /\ \A i \in Procs : pc[i] \in {"start", "seeded1", "picked", "seeded2", "done"}
           /\ \A i \in Procs : Done(i) <=> res[i] # None
+          /\ \A i \in Procs : dpc[i] \in {"idle", "build", "ready"} /\ (dpc[i] = "build" <=> dk[i] > 0)
+
+\* whatever the schedule of the first uses, position k of a configuration's derived table is group k
+DerivedSound == \A c \in CfgNames : /\ Len(derived[c]) <= Len(Groups(c))
+                                    /\ \A k \in 1..Len(derived[c]) : derived[c][k] = k
 
 InNet(net, r) == net.fam = r.fam /\ net.hi = r.hi /\ net.base <= r.low /\ r.low < net.base + Size(net)
 
